@@ -94,6 +94,14 @@ def add_typevars(rng, pkg: pg.Pkg) -> None:
         else:
             src.append(f"\nclass PlainPicker{i}:\n    def pick(self, first: T, second: T) -> T: ...\n\n    def other(self, x: U) -> U: ...\n\n")
         src.append(f"\ndef generic_fn{i}(a: T, b: list[U]) -> T: ...\n")
+        if rng.random() < 0.5:
+            # a generic class with attributes only (type variables converted outside any function) right before plain
+            # functions, or as the very last declaration of the module
+            holder = f"\nclass HolderOnly{i}(Generic[T, U]):\n    value: T\n    items: list[U] = []\n\n"
+            if rng.random() < 0.5:
+                src.append(holder + f"\ndef after_holder{i}(n: int) -> int: ...\n\n\nclass AfterHolder{i}:\n    def plain(self, n: int) -> int: ...\n")
+            else:
+                src.append(holder)
         m.extra += "".join(src)
 
 
@@ -324,10 +332,10 @@ def form_library_relations(chk: Check, tier: str, seed: int) -> None:
     from . import c01
 
     gated = gated_features()
-    usable = [(f, src) for f, src in sn.SNIPPETS if f not in gated and f not in ("func:dunder-module-level", "module:all-and-dunder", "module:big-function")]
+    usable = [(f, src) for f, src in sn.SNIPPETS if f not in gated and f not in ("func:dunder-module-level", "module:all-and-dunder", "module:big-function", "module:name-collisions", "module:star-import-stdlib")]  # (blocks that re-bind names other blocks use are not freely permutable)
     rng = rng_for(seed, PID, "form-library")
     batches, index = [], []
-    n = 3 if tier == "quick" else 60
+    n = 4 if tier == "quick" else 60
     optsets = [[], ["--docstyle", "numpydoc"], ["-nc", "--docstyle", "google"], ["--docstyle", "rest", "-tsp", "docstring"]]
     for g in range(n):
         blocks = [c01.subst(src, 500 + g * 40 + k) + "\n\n" for k, (f, src) in enumerate(rng.sample(usable, 14))]
